@@ -175,19 +175,28 @@ class Path:
         self.notes = []
         self.solver_secs = 0.0
         self.assumed = []  # descriptions of assumptions made on this path
-        self._ix = (None, 0, set(), set())  # index of self.pc: (list object, length indexed, term ids, symbol names)
+        self._ix = (None, 0, set(), set(), [])  # index of self.pc: (list object, length indexed, term ids, symbol names, symbols per conjunct)
 
     def pc_index(self):
-        """(ids of the conjuncts of the path condition, symbols they mention); maintained incrementally -
-        the path condition only grows by append (a replaced list is re-indexed)."""
-        lst, n, ids, syms = self._ix
+        """(ids of the conjuncts of the path condition, symbols they mention, symbols per conjunct);
+        maintained incrementally - the path condition only grows by append (a replaced list is re-indexed)."""
+        lst, n, ids, syms, per = self._ix
         if lst is not self.pc or n > len(self.pc):
-            lst, n, ids, syms = self.pc, 0, set(), set()
-        for c in self.pc[n:]:
-            ids.add(c.get_id())
-            syms |= term_vars(c)
-        self._ix = (lst, len(self.pc), ids, syms)
-        return ids, syms
+            lst, n, ids, syms, per = self.pc, 0, set(), set(), []
+        if n < len(self.pc):
+            for c in self.pc[n:]:
+                ids.add(c.get_id())
+                v = term_vars(c)
+                per.append(v)
+                syms |= v
+            self._ix = (lst, len(self.pc), ids, syms, per)
+        return ids, syms, per
+
+    def inherit_index(self, parent):
+        """self.pc was just set to a copy of parent.pc: copy the parent's index instead of rebuilding it."""
+        ids, syms, per = parent.pc_index()
+        if len(per) == len(self.pc):
+            self._ix = (self.pc, len(self.pc), set(ids), set(syms), list(per))
 
     # -- assumptions ---------------------------------------------------------------
     def assume(self, c, why=None):
@@ -207,7 +216,7 @@ class Path:
         (every branch taken was checked feasible), so conjuncts over disjoint symbols cannot
         affect the satisfiability of t."""
         vs = set(vars_of(t))
-        pending = [(c, vars_of(c)) for c in self.pc]
+        pending = list(zip(self.pc, self.pc_index()[2])) if vars_of is term_vars else [(c, vars_of(c)) for c in self.pc]
         chosen = []
         changed = True
         while changed and pending:
@@ -234,7 +243,7 @@ class Path:
             # path condition -> infeasible; `extra` itself is one -> as feasible as the path condition
             # (satisfiable by construction: every branch taken was checked)
             neg = extra.arg(0) if z3.is_not(extra) else None
-            ids, syms = self.pc_index()
+            ids, syms, _ = self.pc_index()
             if (neg is not None and neg.get_id() in ids) or z3.Not(extra).get_id() in ids:
                 return False
             if extra.get_id() in ids:
@@ -868,6 +877,7 @@ class Interp:
                     return NotImplemented
                 child = Path(prefix)
                 child.pc = list(parent.pc)
+                child.inherit_index(parent)
                 child.pc_kind = list(parent.pc_kind)
                 child.inputs = parent.inputs
                 child.ghost = parent.ghost
